@@ -12,7 +12,7 @@ from petl.compat import pickle, next, text_type
 
 
 import petl.config as config
-from petl.comparison import comparable_itemgetter
+from petl.comparison import Comparable, comparable_itemgetter
 from petl.util.base import Table, asindices
 
 
@@ -528,7 +528,8 @@ def itermergesort(sources, key, header, missing, reverse):
             for hdr, it in zip(src_hdrs, its)]
 
     # now determine key function
-    getkey = None
+    # (if no key is given, rows are compared lexically, as for sort())
+    getkey = Comparable
     if key is not None:
         # convert field selection into field indices
         indices = asindices(outhdr, key)
